@@ -904,6 +904,12 @@ def run_c12(ctx) -> Corr:
                     for fault in ((), (True,)):
                         h = Hist(v, True, [("node", 1, 17, "2.0", "", "", 0, 0, False, False),
                                            ("node", 2, 17, "2.0", "", "", 0, 0, False, True)])
+                        # destinations with registry content that coincides with what is sent: the child exists,
+                        # and (every other type) already stores the very value that is sent
+                        for n in (1, 2):
+                            h.preload.append(("child", n, 1, 1, 6, "c"))
+                            if int(t) % 2 == 0:
+                                h.preload.append(("val", n, 1, int(t), "5"))
                         for n in (1, 2, 3):
                             child = 255 if cmd in (3, 4) else 1
                             h.ops.append(("send", (n, child, cmd, 0, int(t), "5"), buffer, fault))
